@@ -33,8 +33,9 @@ const (
 // If the buffer isn't a valid STUN or ChannelData packet,
 // or the length doesn't match return false.
 func consumeSingleTURNFrame(b []byte) (int, error) {
-	// Too short to determine if ChannelData or STUN
-	if len(b) < 9 {
+	// Too short to determine if ChannelData or STUN: the first four bytes
+	// (channel number and length, or STUN type and length) decide.
+	if len(b) < channelDataHeaderSize {
 		return 0, errIncompleteTURNFrame
 	}
 
